@@ -7,6 +7,7 @@ import (
 	"path/filepath"
 	"runtime"
 	"strings"
+	"syscall"
 	"time"
 
 	"verifharness/internal/fw"
@@ -32,7 +33,7 @@ func binSample(c *fw.Ctx, res *fw.Result, idx int, tag string, files map[string]
 		}
 		return fp
 	}
-	argv := args(p)
+	argv := respell(args(p), idx)
 	outPath := filepath.Join(d, "result.out")
 	if outFlag != "" {
 		argv = append(argv, outFlag, outPath)
@@ -58,10 +59,20 @@ func binSample(c *fw.Ctx, res *fw.Result, idx int, tag string, files map[string]
 		res.Count(fmt.Sprintf("binary_runs_with_%d_cpu", cpus), 1)
 		argv = append([]string{fmt.Sprintf("[taskset -c 0-%d]", cpus-1)}, argv...)
 	}
+	// a share of the runs has its temporary directory on another filesystem than the output
+	// (TMPDIR on a tmpfs, the result on disk): where the command puts scratch files is its own business
+	var env []string
+	if fw.Mix(uint64(idx)+909)%3 == 0 {
+		if td := otherFilesystemDir(d, idx); td != "" {
+			defer os.RemoveAll(td)
+			env = []string{"TMPDIR=" + td}
+			res.Count("binary_runs_with_TMPDIR_on_another_filesystem", 1)
+		}
+	}
 	var br fw.BinResult
 	if outFlag == "" {
 		// standard output is a small pipe with a slow reader (a pager, a throttled consumer)
-		br = fw.RunBinSlowPipe(bin, fullArgv, stdin, nil, d, 40*time.Second)
+		br = fw.RunBinSlowPipe(bin, fullArgv, stdin, env, d, 40*time.Second)
 		if len(want) > 12288 {
 			res.Count("binary_stdout_runs_larger_than_3_pipe_buffers", 1)
 		}
@@ -69,10 +80,10 @@ func binSample(c *fw.Ctx, res *fw.Result, idx int, tag string, files map[string]
 		// `gofasta ... < file`: standard input is a regular file, not a pipe
 		sp := filepath.Join(d, "stdin.redirect")
 		os.WriteFile(sp, stdin, 0644)
-		br = fw.RunBinStdinFile(bin, fullArgv, sp, nil, d, 40*time.Second)
+		br = fw.RunBinStdinFile(bin, fullArgv, sp, env, d, 40*time.Second)
 		res.Count("binary_runs_with_stdin_redirected_from_a_file", 1)
 	} else {
-		br = fw.RunBin(bin, fullArgv, stdin, nil, d, 40*time.Second)
+		br = fw.RunBin(bin, fullArgv, stdin, env, d, 40*time.Second)
 	}
 	res.Evals++
 	res.Count("binary_runs", 1)
@@ -92,6 +103,87 @@ func binSample(c *fw.Ctx, res *fw.Result, idx int, tag string, files map[string]
 		f["stderr.txt"] = clipStr(string(br.Stderr), 4000)
 		res.Fail("binary-vs-entry-point:"+tag, fmt.Sprintf("gofasta %v (exit %d) does not produce the output of the entry point called with the same options: %s", argv, br.Exit, firstDiff(want, got)), f, argv)
 	}
+}
+
+// switches lists the boolean flags of each gofasta command (cobra/pflag switches: `--x`, `--x=true`,
+// `--x=false` and leaving the flag out are all documented spellings).
+var switches = map[string][]string{
+	"closest":           {"table"},
+	"sam toMultiAlign":  {"pad"},
+	"sam toPairAlign":   {"omit-reference", "skip-insertions"},
+	"sam variants":      {"aggregate", "append-snps"},
+	"snps":              {"hard-gaps", "aggregate"},
+	"updown topranking": {"table", "no-fill"},
+	"variants":          {"aggregate", "append-snps"},
+	"updown list":       {},
+	"sam indels":        {},
+}
+
+// respell rewrites a gofasta command line into an equivalent one the way scripts and wrappers
+// write them: a switch that is on as `--x=true`, a switch that is off as an explicit `--x=false`,
+// `--flag value` as `--flag=value`. Which rewriting a case gets is a hash of its index. The
+// meaning of the command line is unchanged, so the expected output is too.
+func respell(argv []string, idx int) []string {
+	if len(argv) == 0 {
+		return argv
+	}
+	cmd := argv[0]
+	n := 1
+	if len(argv) > 1 && (argv[0] == "sam" || argv[0] == "updown") {
+		cmd, n = argv[0]+" "+argv[1], 2
+	}
+	sw, known := switches[cmd]
+	if !known {
+		return argv
+	}
+	isSwitch := map[string]bool{}
+	for _, x := range sw {
+		isSwitch["--"+x] = true
+	}
+	isSwitch["--trim"] = true // hidden legacy switch of toMultiAlign: left as the caller wrote it
+	h := fw.Mix(uint64(idx)*2654435761 + 99)
+	out := append([]string{}, argv[:n]...)
+	present := map[string]bool{}
+	for i := n; i < len(argv); i++ {
+		a := argv[i]
+		name := a
+		if k := strings.IndexByte(a, '='); k > 0 {
+			name = a[:k]
+		}
+		present[name] = true
+		switch {
+		case isSwitch[a] && a != "--trim" && h%4 == 1:
+			out = append(out, a+"=true")
+		case strings.HasPrefix(a, "--") && !strings.Contains(a, "=") && !isSwitch[a] && i+1 < len(argv) && h%5 == 2:
+			out = append(out, a+"="+argv[i+1])
+			i++
+		default:
+			out = append(out, a)
+		}
+	}
+	if h%3 == 0 {
+		for _, x := range sw {
+			if !present["--"+x] {
+				out = append(out, "--"+x+"=false")
+			}
+		}
+	}
+	return out
+}
+
+// otherFilesystemDir makes a scratch directory on a filesystem other than that of dir (a tmpfs),
+// or returns "" when the host has none.
+func otherFilesystemDir(dir string, idx int) string {
+	const shm = "/dev/shm"
+	var a, b syscall.Stat_t
+	if syscall.Stat(shm, &a) != nil || syscall.Stat(dir, &b) != nil || a.Dev == b.Dev {
+		return ""
+	}
+	td, err := os.MkdirTemp(shm, fmt.Sprintf("vtmp-%d-", idx))
+	if err != nil {
+		return ""
+	}
+	return td
 }
 
 // staleContent is n bytes of plausible stale output.
